@@ -41,14 +41,19 @@ def constants(family, kd=(), **kw):
             "CutModes": sset(kw.get("modes", []))}
 
 
+RA_429 = ["H429", "H429RA", "H429RA0", "H429RA120", "H429RADate", "H429RAFrac", "H429RAUnit", "H429RANeg", "H429RAEmpty", "H429RABin"]
+
+
 def plan(quick):
     http_q = ["OkBpsv", "H500", "H503", "H429", "H429RA", "H404", "Malformed", "Refused", "ClosedMid"]
     tcp_q = ["OkBpsv", "OkMime", "Malformed", "Refused", "ClosedMid", "ClosedMidBpsv"]
     if quick:
         return [
             ("chain", dict(http=http_q, tcp=tcp_q, classes=ALL_CLASSES)),
+            ("chain", dict(http=["OkBpsv"] + RA_429, tcp=["OkBpsv"], classes=["versions", "bgdl"])),
             ("cache", dict(depth=4)),
             ("renew", dict(depth=6)),
+            ("ttlcls", dict(classes=ALL_CLASSES)),
             ("split", dict(cls="summary", shapes=["bpsv_nn", "bpsv_blank", "bpsv_crlf"], modes=["one"])),
             ("split", dict(cls="summary", shapes=["bpsv_utf8", "mime_utf8", "mime_lf_utf8"], modes=["mb1", "mb2"])),
             ("split", dict(cls="versions", shapes=["bpsv_utf8", "mime_utf8", "bpsv_big_utf8"], modes=["mb1"])),
@@ -61,8 +66,10 @@ def plan(quick):
     tcp_t = tcp_q + ["OkBpsvEof", "OkMimeLf", "OkMimeSrv", "MalformedSum", "MalformedBin", "ClosedEmpty"]
     return [
         ("chain", dict(http=http_t, tcp=tcp_t, classes=ALL_CLASSES)),
+        ("chain", dict(http=["OkBpsv", "H404"] + RA_429, tcp=["OkBpsv", "OkMime", "Refused"], classes=["versions", "cdns", "bgdl"])),
         ("cache", dict(depth=5)),
         ("renew", dict(depth=7)),
+        ("ttlcls", dict(classes=ALL_CLASSES)),
         ("split", dict(cls="summary", shapes=UTF8_SHAPES, modes=["one"])),
         ("split", dict(cls="summary", shapes=UTF8_SHAPES, modes=["mb2"])),
         ("split", dict(cls="versions", shapes=UTF8_SHAPES + ["bpsv_big_utf8"], modes=["marks1", "mb2"])),
@@ -356,7 +363,9 @@ def run(ctx):
             if not did_selftest:
                 selftest(ctx, trace, kd)
                 did_selftest = True
-        elif family == "renew":
+        elif family == "ttlcls":
+            add_sample(ctx, trace, src, lambda l: '"cls":"bgdl"' in l and '"cache":"disk"' in l)
+        elif family == "renew" and len(ctx.cov["samples"]) < 5:
             add_sample(ctx, trace, src, lambda l: '"cache":"disk"' in l)
         elif family == "cache":
             add_sample(ctx, trace, src, lambda l: '"cache":"disk"' in l and '"ttl":"short"' in l)
